@@ -101,9 +101,11 @@ theorem targetOfSplit_scheme {sp : Split} {t : Target} (h : targetOfSplit sp = .
   · cases h
   · split at h
     · cases h
-    · simp only [Except.ok.injEq] at h
-      subst h
-      exact ⟨rfl, schemeOf_cases _⟩
+    · split at h
+      · cases h
+      · simp only [Except.ok.injEq] at h
+        subst h
+        exact ⟨rfl, schemeOf_cases _⟩
 
 theorem parseLocation_scheme {S : Std} {r : Requester} {loc : Option Str} {t : Target}
     (h : parseLocation S r loc = .ok t) :
@@ -111,8 +113,171 @@ theorem parseLocation_scheme {S : Std} {r : Requester} {loc : Option Str} {t : T
   unfold parseLocation at h
   split at h
   · cases h
-  · exact targetOfSplit_scheme h
+  · split at h
+    · cases h
+    · split at h
+      · cases h
+      · exact targetOfSplit_scheme h
+
+/-- what a successfully parsed Location went through -/
+theorem parseLocation_ok {S : Std} {r : Requester} {loc : Option Str} {t : Target}
+    (h : parseLocation S r loc = .ok t) :
+    ∃ l u, loc = some l ∧ l ≠ [] ∧ S.urljoin (baseUrl r) (locText S l) = some u ∧ targetOfSplit (S.urlsplit u) = .ok t := by
+  unfold parseLocation at h
+  split at h
+  · cases h
+  · rename_i l
+    split at h
+    · cases h
+    · rename_i hne
+      split at h
+      · cases h
+      · rename_i u hu
+        exact ⟨l, u, rfl, by intro hl; subst hl; exact hne rfl, hu, h⟩
 
 theorem sHttp_ne_sHttps : sHttp ≠ sHttps := by decide
+
+/-! ## `httping.InvalidURL` is raised before `redirect` does anything (fix D32a) -/
+
+theorem build_err {S : Std} {r : Requester} {e : Err} (h : build S r = .error e) : e ≠ .invalidURL := by
+  unfold build at h
+  simp only [] at h
+  split at h
+  · cases h; intro hc; cases hc
+  · split at h
+    · cases h; intro hc; cases hc
+    · split at h
+      · cases h; intro hc; cases hc
+      · split at h
+        · cases h; intro hc; cases hc
+        · split at h
+          · cases h; intro hc; cases hc
+          · cases h
+
+theorem transmitRedirect_err (S : Std) (p : Patron) (path : Str) (qargs : List (Str × Str)) (fragment : Str) :
+    (transmitRedirect S p path qargs fragment).err ≠ some .invalidURL := by
+  unfold transmitRedirect
+  simp only []
+  split
+  · rename_i e h
+    intro hc
+    simp only [Option.some.injEq] at hc
+    exact build_err h hc
+  · intro hc; cases hc
+
+theorem follow_err (S : Std) (p : Patron) (t : Target) (ip : Str) : (follow S p t ip).err ≠ some .invalidURL := by
+  unfold follow
+  simp only []
+  split
+  · split
+    · intro hc; cases hc
+    · exact transmitRedirect_err S _ _ _ _
+  · exact transmitRedirect_err S _ _ _ _
+
+theorem build_err_gai {S : Std} {r : Requester} {e : Err} (h : build S r = .error e) : e ≠ .gaiError := by
+  unfold build at h
+  simp only [] at h
+  split at h
+  · cases h; intro hc; cases hc
+  · split at h
+    · cases h; intro hc; cases hc
+    · split at h
+      · cases h; intro hc; cases hc
+      · split at h
+        · cases h; intro hc; cases hc
+        · split at h
+          · cases h; intro hc; cases hc
+          · cases h
+
+theorem follow_err_gai (S : Std) (p : Patron) (t : Target) (ip : Str) : (follow S p t ip).err ≠ some .gaiError := by
+  have htr : ∀ (p : Patron) (path : Str) (qargs : List (Str × Str)) (fragment : Str),
+      (transmitRedirect S p path qargs fragment).err ≠ some .gaiError := by
+    intro p path qargs fragment
+    unfold transmitRedirect
+    simp only []
+    split
+    · rename_i e h
+      intro hc
+      simp only [Option.some.injEq] at hc
+      exact build_err_gai h hc
+    · intro hc; cases hc
+  unfold follow
+  simp only []
+  split
+  · split
+    · intro hc; cases hc
+    · exact htr _ _ _ _
+  · exact htr _ _ _ _
+
+theorem pyInt_ne_gai (s : Str) : pyInt s ≠ .error .gaiError := by
+  unfold pyInt
+  simp only []
+  repeat' split
+  all_goals (intro h; cases h)
+
+theorem pyInt_err_gai {s : Str} {e : Err} (h : pyInt s = .error e) : e ≠ .gaiError := by
+  intro hc; subst hc; exact pyInt_ne_gai s h
+
+theorem normalizeHostPort_err_gai {host : Option Str} {port : Option Int} {d : Int} {e : Err}
+    (h : normalizeHostPort host port d = .error e) : e ≠ .gaiError := by
+  unfold normalizeHostPort at h
+  split at h
+  · cases h; intro hc; cases hc
+  · simp only [] at h
+    split at h
+    · split at h
+      · cases h
+      · split at h
+        · cases h
+        · rename_i e' he
+          simp only [Except.error.injEq] at h
+          subst h
+          exact pyInt_err_gai he
+    · cases h
+
+theorem parseLocation_err_gai {S : Std} {r : Requester} {loc : Option Str} {e : Err}
+    (h : parseLocation S r loc = .error e) : e ≠ .gaiError := by
+  unfold parseLocation at h
+  split at h
+  · cases h; intro hc; cases hc
+  · split at h
+    · cases h; intro hc; cases hc
+    · split at h
+      · cases h; intro hc; cases hc
+      · unfold targetOfSplit at h
+        split at h
+        · cases h; intro hc; cases hc
+        · split at h
+          · cases h; intro hc; cases hc
+          · split at h
+            · rename_i e' he
+              simp only [Except.error.injEq] at h
+              subst h
+              exact normalizeHostPort_err_gai he
+            · cases h
+
+/-- `redirect` raises `InvalidURL` only while it is still looking at the Location: nothing was closed, opened or
+sent and the client state is untouched -/
+theorem redirect_invalid {S : Std} {p : Patron} (h : (redirect S p).err = some .invalidURL) :
+    redirect S p = ⟨p, [], some .invalidURL⟩ := by
+  unfold redirect at h ⊢
+  split
+  · rename_i hl; rw [hl] at h; cases h
+  · rename_i last hl
+    rw [hl] at h
+    simp only [] at h ⊢
+    split
+    · rename_i e hp
+      rw [hp] at h
+      simp only [Option.some.injEq] at h
+      rw [h]
+    · rename_i t hp
+      rw [hp] at h
+      simp only [] at h
+      split
+      · rfl
+      · rename_i ip hr
+        rw [hr] at h
+        exact absurd h (follow_err S p t ip)
 
 end Ioflo.Redirect
